@@ -43,10 +43,11 @@ def episodic():
 
 @contextlib.contextmanager
 def facades(uses, budget):
-    if not S.symbolic():
-        yield
-        return
     trip = Tripwire('random', uses, private_budget=budget)
+    if not S.symbolic():
+        with patched((rm, dict(random=trip)), (dd, dict(random=trip)), (dct, dict(random=trip))):
+            yield
+        return
     with M.facades(rm), patched((rm, dict(random=trip)), (dd, dict(random=trip)), (dct, dict(random=trip))):
         yield
 
